@@ -199,8 +199,9 @@ structure Env where
   leaf : Nat → St → St × Option Err
   /-- two-circuit callables (DoThenDecide condition: `(old, new)`; ParallelDo less_than: `(a, b)`) -/
   cond : Nat → Circ → Circ → Bool
-  collect : Nat → Op → Bool
-  rfilt : Nat → Circ → Op → Bool
+  /-- callables that look at operations also get the table naming circuit-gate bodies -/
+  collect : Nat → Blocks → Op → Bool
+  rfilt : Nat → Blocks → Circ → Op → Bool
   filters : List (String × FilterKind)
   copyFields : List Field
   becomeFields : List Field
@@ -399,7 +400,7 @@ def defaultCollectGids : List Nat := [13, 14]
 
 def evalCollect (env : Env) (bl : Blocks) : Collect → Op → Bool
   | .default, o => (bl.body? o.gid).isSome || defaultCollectGids.contains o.gid
-  | .fn i, o => env.collect i o
+  | .fn i, o => env.collect i bl o
 
 /-- the sub-circuit handed to the body -/
 def subCircuit (bl : Blocks) (o : Op) : Circ :=
@@ -686,7 +687,7 @@ def exec (env : Env) : Nat → Tree → World → St → Option Res
                 let (j, r) := jr
                 let new := r.st.circ
                 let accept := match cfg.rfilter with
-                  | .fn i => some (env.rfilt i new j.op)
+                  | .fn i => some (env.rfilt i w.blocks new j.op)
                   | .named name => (env.filters.find? (·.1 == name)).map
                       (fun e => e.2.eval model new j.op (w.blocks.body? j.op.gid))
                 match accept with
